@@ -38,6 +38,31 @@ static void check_state(long s, Out& out) {
         out.fail("rng-draw", why + " at state " + str(s), "{\"op\":\"rand_draw\",\"s\":" + str(s) + "}");
 }
 
+static void check_repro(Out& out, int only_n = 0) {
+    // ---- reproducibility of default-initialised solvers inside one process (seed purity at the call sites): the same default
+    // solve performed twice must be bit-identical, also when the Krylov sequence breaks down and restart vectors are drawn
+    // (diag(1,2,3 repeated): an invariant subspace is hit after 3 steps, so expand_basis draws from the generator) ----
+    {
+        auto sym_run = [](const Eigen::MatrixXd& A, int nev, int ncv, Eigen::VectorXd& ev, Eigen::MatrixXd& X) {
+            Spectra::DenseSymMatProd<double> op(A); Spectra::SymEigsSolver<Spectra::DenseSymMatProd<double>> e(op, nev, ncv); e.init(); e.compute(Spectra::SortRule::LargestAlge, 50, 1e-10);
+            ev = e.eigenvalues(); X = e.eigenvectors(); };
+        auto gen_run = [](const Eigen::MatrixXd& A, int nev, int ncv, Eigen::VectorXcd& ev, Eigen::MatrixXcd& X) {
+            Spectra::DenseGenMatProd<double> op(A); Spectra::GenEigsSolver<Spectra::DenseGenMatProd<double>> e(op, nev, ncv); e.init(); e.compute(Spectra::SortRule::LargestMagn, 50, 1e-10);
+            ev = e.eigenvalues(); X = e.eigenvectors(); };
+        for (int n : {9, 12, 15}) for (int rep = 0; rep < 2; rep++) { if (only_n && n != only_n) continue;
+            Eigen::MatrixXd A = Eigen::MatrixXd::Zero(n, n); for (int i = 0; i < n; i++) A(i, i) = 1 + (i % 3);
+            if (rep == 1) { A(0, 1) = A(1, 0) = 0.25; }
+            Eigen::VectorXd e1, e2; Eigen::MatrixXd X1, X2; sym_run(A, 3, 8, e1, X1); sym_run(A, 3, 8, e2, X2);
+            bool same = e1.size() == e2.size() && X1.cols() == X2.cols() && (e1.size() == 0 || std::memcmp(e1.data(), e2.data(), 8 * e1.size()) == 0) && (X1.size() == 0 || std::memcmp(X1.data(), X2.data(), 8 * X1.size()) == 0);
+            if (!same) out.fail("rng-not-reproducible", "two identical default-initialised SymEigsSolver runs in one process differ (n=" + str(n) + ", breakdown matrix)", "{\"op\":\"repro_sym\",\"s\":" + str(n) + "}");
+            Eigen::VectorXcd g1, g2; Eigen::MatrixXcd Y1, Y2; gen_run(A, 2, 7, g1, Y1); gen_run(A, 2, 7, g2, Y2);
+            bool sameg = g1.size() == g2.size() && Y1.cols() == Y2.cols() && (g1.size() == 0 || std::memcmp(g1.data(), g2.data(), 16 * g1.size()) == 0) && (Y1.size() == 0 || std::memcmp(Y1.data(), Y2.data(), 16 * Y1.size()) == 0);
+            if (!sameg) out.fail("rng-not-reproducible", "two identical default-initialised GenEigsSolver runs in one process differ (n=" + str(n) + ", breakdown matrix)", "{\"op\":\"repro_gen\",\"s\":" + str(n) + "}");
+            out.count("oracle_reproducibility", 2);
+        }
+    }
+}
+
 int main(int argc, char** argv) {
     Args a(argc, argv); Out out(a.out);
     if (!a.replay.empty()) {
@@ -45,7 +70,8 @@ int main(int argc, char** argv) {
         std::ifstream f(a.replay); std::string t((std::istreambuf_iterator<char>(f)), {});
         auto p = t.find("\"s\":"); long s = p == std::string::npos ? 1 : std::atol(t.c_str() + p + 4);
         if (t.find("rand_seed") != std::string::npos) { Spectra::SimpleRandom<double> r((unsigned long) s); (void) r; }
-        check_state(s, out); out.finish(); return out.nfail ? 1 : 0;
+        if (t.find("repro_") != std::string::npos) check_repro(out, (int) s); else check_state(s, out);
+        out.finish(); return out.nfail ? 1 : 0;
     }
     // ---- correspondence requests: boundary + random states, seeds ----
     std::vector<long> states = {1, 2, 3, 16807, 65535, 65536, 65537, 127773, 127774, 1043618065, P - 2, P - 1, P / 2, P / 2 + 1, 32767, 32768, 2147418112, 2147450879};
@@ -79,28 +105,7 @@ int main(int argc, char** argv) {
         if (!(v >= -0.5 && v <= 0.5)) out.fail("rng-draw", "first draw of seed " + str(sd) + " out of range", "{\"op\":\"rand_seed\",\"s\":" + str(sd) + "}");
         out.count("seeds");
     }
-    // ---- reproducibility of default-initialised solvers inside one process (seed purity at the call sites): the same default
-    // solve performed twice must be bit-identical, also when the Krylov sequence breaks down and restart vectors are drawn
-    // (diag(1,2,3 repeated): an invariant subspace is hit after 3 steps, so expand_basis draws from the generator) ----
-    {
-        auto sym_run = [](const Eigen::MatrixXd& A, int nev, int ncv, Eigen::VectorXd& ev, Eigen::MatrixXd& X) {
-            Spectra::DenseSymMatProd<double> op(A); Spectra::SymEigsSolver<Spectra::DenseSymMatProd<double>> e(op, nev, ncv); e.init(); e.compute(Spectra::SortRule::LargestAlge, 50, 1e-10);
-            ev = e.eigenvalues(); X = e.eigenvectors(); };
-        auto gen_run = [](const Eigen::MatrixXd& A, int nev, int ncv, Eigen::VectorXcd& ev, Eigen::MatrixXcd& X) {
-            Spectra::DenseGenMatProd<double> op(A); Spectra::GenEigsSolver<Spectra::DenseGenMatProd<double>> e(op, nev, ncv); e.init(); e.compute(Spectra::SortRule::LargestMagn, 50, 1e-10);
-            ev = e.eigenvalues(); X = e.eigenvectors(); };
-        for (int n : {9, 12, 15}) for (int rep = 0; rep < 2; rep++) {
-            Eigen::MatrixXd A = Eigen::MatrixXd::Zero(n, n); for (int i = 0; i < n; i++) A(i, i) = 1 + (i % 3);
-            if (rep == 1) { A(0, 1) = A(1, 0) = 0.25; }
-            Eigen::VectorXd e1, e2; Eigen::MatrixXd X1, X2; sym_run(A, 3, 8, e1, X1); sym_run(A, 3, 8, e2, X2);
-            bool same = e1.size() == e2.size() && X1.cols() == X2.cols() && (e1.size() == 0 || std::memcmp(e1.data(), e2.data(), 8 * e1.size()) == 0) && (X1.size() == 0 || std::memcmp(X1.data(), X2.data(), 8 * X1.size()) == 0);
-            if (!same) out.fail("rng-not-reproducible", "two identical default-initialised SymEigsSolver runs in one process differ (n=" + str(n) + ", breakdown matrix)", "{\"op\":\"repro_sym\",\"s\":" + str(n) + "}");
-            Eigen::VectorXcd g1, g2; Eigen::MatrixXcd Y1, Y2; gen_run(A, 2, 7, g1, Y1); gen_run(A, 2, 7, g2, Y2);
-            bool sameg = g1.size() == g2.size() && Y1.cols() == Y2.cols() && (g1.size() == 0 || std::memcmp(g1.data(), g2.data(), 16 * g1.size()) == 0) && (Y1.size() == 0 || std::memcmp(Y1.data(), Y2.data(), 16 * Y1.size()) == 0);
-            if (!sameg) out.fail("rng-not-reproducible", "two identical default-initialised GenEigsSolver runs in one process differ (n=" + str(n) + ", breakdown matrix)", "{\"op\":\"repro_gen\",\"s\":" + str(n) + "}");
-            out.count("oracle_reproducibility", 2);
-        }
-    }
+    check_repro(out);
     // model correspondence for seed normalisation (model side: Gen.Rand.seed_norm), sampled
     for (size_t k = 0; k < seeds.size(); k += (a.thorough() ? 97 : 7)) {
         unsigned long sd = seeds[k];
